@@ -30,7 +30,7 @@ CFG = {
         "capacity) — assumed in Model/SecretBuf.lean, validated by the allocator trace of this run (diagnostic channel: capacities and "
         "alloc/free sizes equal the model's)",
         "usize arithmetic of the buffer (len + extra, cap * 2) does not wrap (sizes below 2^63)",
-        "the Debug templates of Model/SecretFmt.lean are transcribed by hand from the impl Debug / derive(Debug) sites; their tie to the "
+        "the Debug templates of Model/SecretFmt.lean are transcribed by hand (both the derived and the redacting variant of the six repaired types; which one applies is read from the source into Generated/Flags.lean on every run); their tie to the "
         "code is the c20:fmt / c20:log run",
         "compiler-introduced copies (moves, spills) of inline keys are outside the model: the allocator observes heap blocks only, and "
         "the store life cycle (moved-from copies of the store key inside freed boxed futures) is reported on the diagnostic channel",
